@@ -461,7 +461,9 @@ func TestC19(t *testing.T) {
 	t.Run("repeat_on_multi_member_objects", func(t *testing.T) {
 		b := ev.enum(t)
 		paths := []string{`exists($.*.double())`, `$.*.double()`, `$ ? (exists(@.*.double()))`, `$.*.datetime()`, `$.** ? (@.integer() > 0)`, `$.*.a`, `strict $.*.a`, `$.* > 1`, `strict $.* > 1`, `$.*.abs()`, `$.**.size()`,
-			`$.* starts with "x"`, `$.**{1 to last}.double()`, `$.*[0]`, `strict $.*[0]`, `($.* == 1) is unknown`, `$.*.keyvalue().key`, `$.* ? (@.type() == "string").integer()`, `$.*.string().number()`}
+			`$.* starts with "x"`, `$.**{1 to last}.double()`, `$.*[0]`, `strict $.*[0]`, `($.* == 1) is unknown`, `$.*.keyvalue().key`, `$.* ? (@.type() == "string").integer()`, `$.*.string().number()`,
+			// .keyvalue() walks the members of an object too - in existence mode as well as with a result list
+			`exists($.keyvalue().value.double())`, `$.keyvalue().value.double()`, `$ ? (exists(@.keyvalue().value.integer()))`, `$.keyvalue().value.datetime()`, `($.keyvalue().value > 1) is unknown`, `$.keyvalue() ? (@.value.double() > 0).key`, `$.*.keyvalue().value.abs()`, `strict $.keyvalue().value.a`}
 		docs := []string{`{"a":1,"b":"x"}`, `{"b":"x","a":1,"c":[1],"d":{"a":2}}`, `{"k1":"2015-08-01","k2":1,"k3":"12:00:00","k4":null}`, `{"a":{"a":1,"b":"x"},"b":{"a":"x","b":1}}`, `[{"a":1,"b":"x"},{"a":"x","b":1}]`, `{"x":"xa","y":1,"z":["xb"]}`}
 		i := 0
 		for _, p := range paths {
